@@ -56,6 +56,11 @@ def pwl_events(tf, tfl, ctx, kp, cyclic, K, X, mode, rng, xscale=1.0):
   if mode in ("missing_value_learned", "is_missing"):
     MO = (rng.integers(-32, 33, size=units) / 16.0).astype(np.float32)
     layer.missing_output.assign(MO.reshape(1, units))
+  if missing_x is not None and xscale == 1.0:
+    # the float32 neighbours of the missing value are ordinary inputs (only equality means "missing")
+    m32 = np.float32(missing_x)
+    X = np.concatenate([X, [float(np.nextafter(m32, np.float32(np.inf))), float(np.nextafter(m32, np.float32(-np.inf))),
+                            float(m32) + 4e-7, float(m32) - 4e-7]])
   if per_unit:
     Xin = np.stack([np.roll(X, u) for u in range(units)], axis=1).astype(np.float32)
   else:
